@@ -7,6 +7,11 @@
 //             re-parsed, and fed in a generated order (permuted, duplicated, interleaved, with
 //             garbage collection in between) to real FragmentAssemblers, one per writer as
 //             Reader::fragment_assembler_mutable does.
+//             An arrival is either one fragment (AFrag: the message is built by the real
+//             MessageBuilder::data_frag_msg) or several consecutive fragments in one DATAFRAG
+//             (AFrags: fragments_in_submessage = c >= 1, as writers of other vendors send them; the
+//             DataFrag value is built here from the sample's bytes, payload = concatenation of the
+//             fragments' bytes, last one possibly short).  Both go through serialise + parse.
 //   CRaw    : DataFrag structs with arbitrary field values are fed to real FragmentAssemblers.
 // Observation per arrival: new_datafrag's result (None | Some bytes) and missing_frags_for(sn);
 // a panic is an observation (APanic) and ends the case, as it ends the receive thread.
@@ -33,7 +38,9 @@ use crate::{
   },
   messages::submessages::{
     elements::serialized_payload::SerializedPayload,
-    submessages::{DataFrag, WriterSubmessage, DATAFRAG_Flags},
+    submessages::{
+      DataFrag, FromEndianness, SubmessageHeader, SubmessageKind, WriterSubmessage, DATAFRAG_Flags,
+    },
   },
   network::udp_sender::UDPSender,
   polling::new_simple_timer,
@@ -44,7 +51,7 @@ use crate::{
     rtps_writer_proxy::RtpsWriterProxy,
     rtps_reader_proxy::RtpsReaderProxy,
     writer::{Writer, WriterCommand, WriterIngredients},
-    Message, MessageBuilder, SubmessageBody,
+    Message, MessageBuilder, Submessage, SubmessageBody,
   },
   structure::{
     cache_change::CacheChange,
@@ -163,12 +170,15 @@ impl RawFrag {
 #[derive(Clone)]
 enum Arrival {
   Frag { w: usize, sn: i64, k: u32 },
+  // fragments k .. k+c-1 in one DATAFRAG
+  Frags { w: usize, sn: i64, k: u32, c: u16 },
   Gc { w: usize, t: usize },
 }
 impl Arrival {
   fn coq(&self) -> String {
     match self {
       Arrival::Frag { w, sn, k } => format!("AFrag {} {} {}", w, sn, k),
+      Arrival::Frags { w, sn, k, c } => format!("AFrags {} {} {} {}", w, sn, k, c),
       Arrival::Gc { w, t } => format!("AGc {} {}", w, t),
     }
   }
@@ -349,6 +359,102 @@ fn make_datafrag_via_wire(
     }
   }
   Err("no DATAFRAG in the built message".into())
+}
+
+// DATAFRAG carrying the c consecutive fragments k .. k+c-1 of sample (w, sn), as a writer that
+// packs several fragments into one submessage sends it (RTPS 8.3.8.3): the DataFrag value is built
+// here from the sample's bytes (payload = bytes (k-1)*fs .. min((k-1+c)*fs, len) of
+// header ++ value), then serialised and parsed back like any received message.
+fn make_datafrags_via_wire(
+  w: usize,
+  sn: i64,
+  sp: &Sp,
+  k: u32,
+  c: u16,
+  fs: u16,
+) -> Result<(DataFrag, BitFlags<DATAFRAG_Flags>), String> {
+  let guid = writer_guid(w);
+  let hv = sp.hv();
+  let from = (k as usize - 1) * fs as usize;
+  let to = ((k as usize - 1 + c as usize) * fs as usize).min(hv.len());
+  if k < 1 || c < 1 || from >= to {
+    return Err("fragment range outside the sample".into());
+  }
+  let datafrag = DataFrag {
+    reader_id: EntityId::UNKNOWN,
+    writer_id: guid.entity_id,
+    writer_sn: SequenceNumber::new(sn),
+    fragment_starting_num: FragmentNumber::new(k),
+    fragments_in_submessage: c,
+    data_size: hv.len() as u32,
+    fragment_size: fs,
+    inline_qos: None,
+    serialized_payload: Bytes::from(hv[from..to].to_vec()),
+  };
+  let endianness = Endianness::LittleEndian;
+  let flags = BitFlags::<DATAFRAG_Flags>::from_endianness(endianness);
+  let content_length = datafrag.len_serialized();
+  if content_length > u16::MAX as usize {
+    return Err("submessage too long".into());
+  }
+  let mut msg = MessageBuilder::new().add_header_and_build(guid.prefix);
+  msg.add_submessage(Submessage {
+    header: SubmessageHeader {
+      kind: SubmessageKind::DATA_FRAG,
+      flags: flags.bits(),
+      content_length: content_length as u16,
+    },
+    body: SubmessageBody::Writer(WriterSubmessage::DataFrag(datafrag, flags)),
+    original_bytes: None,
+  });
+  let buf = msg
+    .write_to_vec_with_ctx(endianness)
+    .map_err(|e| format!("serialize: {e:?}"))?;
+  let parsed = Message::read_from_buffer(&Bytes::from(buf)).map_err(|e| format!("parse: {e:?}"))?;
+  for sm in parsed.submessages {
+    if let SubmessageBody::Writer(WriterSubmessage::DataFrag(df, flags)) = sm.body {
+      return Ok((df, flags));
+    }
+  }
+  Err("no DATAFRAG in the built message".into())
+}
+
+// the DATAFRAG of a fragment arrival, through the wire format (None for a GC event)
+fn arrival_datafrag(
+  ws: &[WDesc],
+  a: &Arrival,
+) -> Option<(usize, Result<(DataFrag, BitFlags<DATAFRAG_Flags>), String>)> {
+  let (w, sn, k, c) = match a {
+    Arrival::Frag { w, sn, k } => (*w, *sn, *k, None),
+    Arrival::Frags { w, sn, k, c } => (*w, *sn, *k, Some(*c)),
+    Arrival::Gc { .. } => return None,
+  };
+  let wd = &ws[w];
+  let sp = &wd.samples.iter().find(|(s, _)| *s == sn).unwrap().1;
+  Some((
+    w,
+    match c {
+      None => make_datafrag_via_wire(w, sn, sp, k, wd.fs),
+      Some(c) => make_datafrags_via_wire(w, sn, sp, k, c, wd.fs),
+    },
+  ))
+}
+
+fn frags_per_submessage_tags(arr: &[Arrival]) -> Vec<String> {
+  let mut classes = [false; 3];
+  for a in arr {
+    match a {
+      Arrival::Frag { .. } => classes[0] = true,
+      Arrival::Frags { c, .. } => classes[if *c <= 1 { 0 } else if *c <= 3 { 1 } else { 2 }] = true,
+      Arrival::Gc { .. } => {}
+    }
+  }
+  ["1", "2-3", "4+"]
+    .iter()
+    .zip(classes)
+    .filter(|(_, p)| *p)
+    .map(|(n, _)| format!("frags_per_submessage:{}", n))
+    .collect()
 }
 
 // ---------------------------------------------------------------------------------------------
@@ -571,6 +677,8 @@ fn gen_honest(r: &mut Rng) -> (Vec<WDesc>, Vec<Arrival>, Vec<String>) {
   let mut ws = Vec::new();
   let mut pool: Vec<Arrival> = Vec::new();
   let mut tags = Vec::new();
+  // half of the honest cases contain DATAFRAGs that carry several fragments
+  let multi = r.chance(1, 2);
   for w in 0..nw {
     let fs = *r.pick(&[4u16, 5, 7, 8, 12, 16, 31, 32, 64]);
     let ns = r.range(1, 3) as usize;
@@ -578,7 +686,7 @@ fn gen_honest(r: &mut Rng) -> (Vec<WDesc>, Vec<Arrival>, Vec<String>) {
     let mut sn = r.range(1, 5);
     for _ in 0..ns {
       // strictly larger than fs (otherwise the writer sends DATA); every residue mod fs and mod 4
-      let nfr = r.range(1, 4) as usize;
+      let nfr = if r.chance(1, 4) { r.range(4, 11) as usize } else { r.range(1, 4) as usize };
       let len = match r.below(4) {
         0 => fs as usize * nfr + 1,
         1 => fs as usize * (nfr + 1),
@@ -588,20 +696,66 @@ fn gen_honest(r: &mut Rng) -> (Vec<WDesc>, Vec<Arrival>, Vec<String>) {
       let sp = Sp::gen(r, len);
       let n = total_frags(sp.len() as u32, fs);
       let mode = r.below(10);
-      for k in 1..=n {
-        // mode 0: one fragment never arrives; otherwise everything arrives at least once
-        if mode == 0 && k == 1 + (sn as u32 % n) {
-          continue;
+      let missing = 1 + (sn as u32 % n);
+      if multi && r.chance(2, 3) {
+        // several fragments per DATAFRAG: a random partition of 1..n into runs of consecutive
+        // fragments, plus duplicated and overlapping runs
+        let mut runs: Vec<(u32, u16)> = Vec::new();
+        let mut k = 1u32;
+        while k <= n {
+          let rest = n - k + 1;
+          let c = match r.below(4) {
+            0 => 1,
+            1 => r.range(2, 3) as u32,
+            2 => r.range(4, 12) as u32,
+            _ => r.range(1, rest as i64) as u32,
+          }
+          .min(rest);
+          runs.push((k, c as u16));
+          k += c;
         }
-        pool.push(Arrival::Frag { w, sn, k });
-        if r.chance(1, 3) {
-          pool.push(Arrival::Frag { w, sn, k }); // duplicate
+        let extra = r.below(4) as usize;
+        for _ in 0..extra {
+          if r.chance(1, 2) {
+            let d = *r.pick(&runs); // duplicate
+            runs.push(d);
+          } else {
+            let k = r.range(1, n as i64) as u32; // overlapping
+            let c = r.range(1, (n - k + 1) as i64) as u16;
+            runs.push((k, c));
+          }
         }
-      }
-      if mode == 1 {
-        // everything twice more: re-assembly after completion (assembler level)
+        for (k, c) in runs {
+          // mode 0: one fragment never arrives; otherwise everything arrives at least once
+          if mode == 0 && k <= missing && missing < k + c as u32 {
+            continue;
+          }
+          if c == 1 && r.chance(1, 2) {
+            pool.push(Arrival::Frag { w, sn, k });
+          } else {
+            pool.push(Arrival::Frags { w, sn, k, c });
+          }
+        }
+        if mode == 1 {
+          // everything once more in one DATAFRAG: re-assembly after completion (assembler level)
+          pool.push(Arrival::Frags { w, sn, k: 1, c: n as u16 });
+        }
+      } else {
         for k in 1..=n {
+          // mode 0: one fragment never arrives; otherwise everything arrives at least once
+          if mode == 0 && k == missing {
+            continue;
+          }
           pool.push(Arrival::Frag { w, sn, k });
+          if r.chance(1, 3) {
+            pool.push(Arrival::Frag { w, sn, k }); // duplicate
+          }
+        }
+        if mode == 1 {
+          // everything twice more: re-assembly after completion (assembler level)
+          for k in 1..=n {
+            pool.push(Arrival::Frag { w, sn, k });
+          }
         }
       }
       samples.push((sn, sp));
@@ -632,6 +786,7 @@ fn gen_honest(r: &mut Rng) -> (Vec<WDesc>, Vec<Arrival>, Vec<String>) {
   }
   tags.push(format!("honest:writers:{}", nw));
   tags.push(format!("honest:gc:{}", gc));
+  tags.extend(frags_per_submessage_tags(&arr));
   (ws, arr, tags)
 }
 
@@ -783,6 +938,29 @@ fn corpus_raw() -> Vec<(&'static str, Vec<RawOp>)> {
   ]
 }
 
+/// Fixed corpus of honest arrivals with several fragments per DATAFRAG: (name, fragment size,
+/// sample length, runs (k, c)); c = 0 stands for a single-fragment DATAFRAG built by the real
+/// MessageBuilder::data_frag_msg.
+fn corpus_multi(default_dmax: usize) -> Vec<(&'static str, u16, usize, Vec<(u32, u16)>)> {
+  let d = default_dmax.min(16000) as u16;
+  vec![
+    ("pairs_in_order", 4, 19, vec![(1, 2), (3, 2), (5, 1)]),
+    ("whole_sample", 4, 19, vec![(1, 5)]),
+    ("whole_sample_exact", 4, 20, vec![(1, 5)]),
+    ("reversed", 4, 19, vec![(4, 2), (1, 3)]),
+    ("last_two_first", 4, 18, vec![(4, 2), (2, 2), (1, 1)]),
+    ("overlapping", 4, 19, vec![(2, 3), (1, 2), (4, 2)]),
+    ("mixed_with_single", 4, 19, vec![(3, 0), (1, 2), (4, 2)]),
+    ("duplicate_run", 4, 19, vec![(1, 3), (1, 3), (4, 2), (4, 2)]),
+    ("incomplete", 4, 19, vec![(1, 2), (4, 2)]),
+    ("reassembly_after_completion", 4, 19, vec![(1, 5), (1, 4), (5, 1)]),
+    ("count_one_handbuilt", 4, 19, vec![(1, 1), (2, 1), (3, 1), (4, 1), (5, 1)]),
+    ("fs1_long_run", 1, 9, vec![(1, 4), (5, 5)]),
+    ("default_fs_pair_then_last", d, 2 * d as usize + 4, vec![(1, 2), (3, 1)]),
+    ("default_fs_last_pair_first", d, 2 * d as usize + 4, vec![(2, 2), (1, 0)]),
+  ]
+}
+
 // ---------------------------------------------------------------------------------------------
 
 struct Rigs {
@@ -815,11 +993,9 @@ fn run_case(case: &Case, rigs: &mut Rigs) -> (String, String, Vec<String>, bool)
       let mut delivered = 0;
       let mut broken = false;
       for a in arr {
-        if let Arrival::Frag { w, sn, k } = a {
-          let wd = &ws[*w];
-          let sp = &wd.samples.iter().find(|(s, _)| s == sn).unwrap().1;
-          let r = match make_datafrag_via_wire(*w, *sn, sp, *k, wd.fs) {
-            Ok((df, flags)) => rr.datafrag(*w, &df, flags),
+        if let Some((w, built)) = arrival_datafrag(ws, a) {
+          let r = match built {
+            Ok((df, flags)) => rr.datafrag(w, &df, flags),
             Err(_) => Err(()),
           };
           match r {
@@ -888,15 +1064,11 @@ fn run_case(case: &Case, rigs: &mut Rigs) -> (String, String, Vec<String>, bool)
       let mut completed = 0;
       for a in arr {
         let o = match a {
-          Arrival::Frag { w, sn, k } => {
-            let wd = &ws[*w];
-            let sp = &wd.samples.iter().find(|(s, _)| s == sn).unwrap().1;
-            match make_datafrag_via_wire(*w, *sn, sp, *k, wd.fs) {
-              Ok((df, flags)) => asm.datafrag(*w, &df, flags),
-              Err(_) => AOut::Panic,
-            }
-          }
           Arrival::Gc { w, t } => asm.gc(*w, *t),
+          _ => match arrival_datafrag(ws, a) {
+            Some((w, Ok((df, flags)))) => asm.datafrag(w, &df, flags),
+            _ => AOut::Panic,
+          },
         };
         let stop = matches!(o, AOut::Panic);
         if let AOut::Out(Some(_), _) = o {
@@ -1014,6 +1186,29 @@ pub fn run(args: &Args) -> i32 {
     idx += 1;
   }
 
+  // ---- fixed corpus 3: several fragments per DATAFRAG (fragments_in_submessage > 1), bare
+  // assembler and real Reader: groupings of a 5-fragment sample with a short last fragment (in
+  // order, reversed, overlapping, whole sample in one DATAFRAG, mixed with single fragments), and
+  // the writer's own fragment size
+  for (name, fs, len, runs) in corpus_multi(default_dmax) {
+    for through_reader in [false, true] {
+      if want(idx) {
+        let mut r = Rng::for_case(args.seed, idx);
+        let sp = Sp::gen(&mut r, len);
+        let arr: Vec<Arrival> = runs
+          .iter()
+          .map(|&(k, c)| if c == 0 { Arrival::Frag { w: 0, sn: 3, k } } else { Arrival::Frags { w: 0, sn: 3, k, c } })
+          .collect();
+        let mut tags = vec![format!("corpus:multi:{}", name)];
+        tags.extend(frags_per_submessage_tags(&arr));
+        let ws = vec![WDesc { fs, samples: vec![(3, sp)] }];
+        let case = if through_reader { Case::Reader { ws, arr } } else { Case::Honest { ws, arr } };
+        emit(&mut out, &mut rig, idx, case, tags);
+      }
+      idx += 1;
+    }
+  }
+
   // ---- generated cases
   for _ in 0..args.n {
     if want(idx) {
@@ -1036,7 +1231,7 @@ pub fn run(args: &Args) -> i32 {
           // a real Reader
           let (ws, arr, t) = gen_honest(&mut r);
           gtags = t;
-          let arr = arr.into_iter().filter(|a| matches!(a, Arrival::Frag { .. })).collect();
+          let arr = arr.into_iter().filter(|a| !matches!(a, Arrival::Gc { .. })).collect();
           Case::Reader { ws, arr }
         }
         _ => {
